@@ -216,7 +216,7 @@ def run(prop, plan, tier, seed, replay, wd, known, t0):
 
         def gen(g):
             b, j, n, sd, out = g
-            rc, o = sh([b, "gen", j["family"], str(n), out], env={"VERIF_SEED": str(sd)}, timeout=1800)
+            rc, o = sh([b, "gen", j["family"], str(n), out], env={"VERIF_SEED": str(sd), "VERIF_SLICE": str(sd % 1000)}, timeout=1800)
             if rc != 0:
                 raise ToolError("generator %s failed: %s" % (j["family"], o[-800:]))
             return (out, j)
@@ -224,8 +224,8 @@ def run(prop, plan, tier, seed, replay, wd, known, t0):
         with cf.ThreadPoolExecutor(JOBS) as ex:
             slices = list(ex.map(gen, gens))
         # C11-style merged traces: interleave the groups of two configurations (text only)
-        merged = []
         for m in plan.get("merge", []):
+            merged = []
             by = collections.defaultdict(dict)
             for (f, j) in slices:
                 if j["family"] == m["family"]:
